@@ -692,10 +692,21 @@ def s_translate_if(_ctx):
                 try:
                     text = I.run_closure(I.closure_of(exp._Exporter._translate_if), [ex, node, {"": 18}], {"indent": 1})
                     lines = text.splitlines()
-                    want = ["    if " + ("True" if cond_inlined else "c") + ":", "        <then body>"] + [f"        y{i} = t{i}" for i in range(n_out)] + \
-                           ["    else:", "        <else body>"] + [f"        y{i} = e{i}" for i in range(n_out)]
-                    ok = lines == want
-                    detail = f"{case}: emitted {lines}, expected {want}"
+                    # decided by EXECUTING the emitted statement (branch bodies replaced by a marker assignment), not by comparing text: any
+                    # correct form of the assignments (one per line, one parallel assignment, ...) passes
+                    import textwrap
+                    code = textwrap.dedent("\n".join(ln.replace("<then body>", "taken = 'then'").replace("<else body>", "taken = 'else'") for ln in lines))
+                    ok = True
+                    seen = []
+                    for cval in ((True,) if cond_inlined else (True, False)):
+                        env = {"c": cval, **{f"t{i}": 10 + i for i in range(n_out)}, **{f"e{i}": 20 + i for i in range(n_out)}}
+                        exec(code, {}, env)  # noqa: S102 - the exporter's own if-statement, on integers
+                        src = "t" if cval else "e"
+                        seen.append((cval, env.get("taken"), [env.get(f"y{i}") for i in range(n_out)]))
+                        ok = ok and env.get("taken") == ("then" if cval else "else") and all(env.get(f"y{i}") == env[f"{src}{i}"] for i in range(n_out))
+                    hdr = lines[0].strip() == "if " + ("True" if cond_inlined else "c") + ":"
+                    ok = ok and hdr
+                    detail = f"{case}: emitted {lines}; executed: {seen}"
                 except Exception as e:  # noqa: BLE001
                     ok, detail = False, f"{case}: {type(e).__name__}: {e}"
                 agg.ob("C13.export.if.both_branches_assign_every_output_from_the_branch_output_at_the_same_position", ok, detail, cl, case=case)
